@@ -22,7 +22,7 @@ pub fn def() -> PropDef {
     PropDef {
         info: PropInfo {
             id: "C20",
-            rule: "corpus lines generated from the strategies of the other checks: A = assembly texts (C13 programs and C14 token soup), V = near-valid byte strings (C06), D = well-formed instruction streams (C15), X = structured programs + inputs (C01/C03; helper-free; the JIT only on runs the reference model classifies as defined, terminating and in bounds). Each line is evaluated in two builds of the crate: the default one (in this process, executions fork-isolated) and the no_std one (binary harness-nostd, JIT running from caller-supplied mmap'ed executable memory). Oracle: the two transcripts are equal line by line - assembler Ok(bytes)/Err (messages are documented to differ, only the kind is compared), verifier Ok/Err, disassembler entries field by field, interpreter Ok(value)+packet bytes / Err, JIT Ok(value)+packet bytes / compile error. Non-trivial = line whose default-build result is Ok with at least 2 instructions, or Err; distinct by hash of the line.",
+            rule: "corpus lines generated from the strategies of the other checks: A = assembly texts (C13 programs and C14 token soup), V = near-valid byte strings (C06), D = well-formed instruction streams (C15), X = structured programs + inputs (C01/C03, helper-free), dense straight-line programs, and call-graph / helper-call programs (C07/C08) with registered helpers and a stack-usage calculator on each of the four VM kinds; the JIT only on runs the reference model classifies as defined, terminating and in bounds. Each line is evaluated in two builds of the crate: the default one (in this process, executions fork-isolated) and the no_std one (binary harness-nostd, JIT running from caller-supplied mmap'ed executable memory). Oracle: the two transcripts are equal line by line - assembler Ok(bytes)/Err (messages are documented to differ, only the kind is compared), verifier Ok/Err, disassembler entries field by field, interpreter Ok(value)+packet bytes / Err, JIT Ok(value)+packet bytes / compile error. Non-trivial = line whose default-build result is Ok with at least 2 instructions, or Err; distinct by hash of the line.",
             assumptions: &["the no_std build is linked into an ordinary std binary (only the crate's own feature set differs)", "Cranelift and the std-only helpers do not exist in the no_std build and are outside this property"],
         },
         run,
@@ -54,8 +54,13 @@ fn vm_fields(vm: VmKind) -> (&'static str, usize, usize) {
 
 fn x_line(case: &ExecCase, with_jit: bool) -> String {
     let (vm, d, e) = vm_fields(case.vm);
+    let calc = match &case.calc {
+        None => "-".to_string(),
+        Some((t, d)) => format!("c:{d}:{}", t.iter().map(|(pc, s)| format!("{pc}={s}")).collect::<Vec<_>>().join(",")),
+    };
+    let helpers = if case.helpers.is_empty() { "-".to_string() } else { format!("h:{}", case.helpers.iter().map(|(id, p)| format!("{id}={p}")).collect::<Vec<_>>().join(",")) };
     format!(
-        "X {vm} {d} {e} {} {} {} {} {} {} {}",
+        "X {vm} {d} {e} {} {} {} {} {} {} {} {calc} {helpers}",
         case.pkt_base_mod8(),
         case.mbuff_base_mod8(),
         case.budget,
@@ -64,6 +69,11 @@ fn x_line(case: &ExecCase, with_jit: bool) -> String {
         hexs(&case.mbuff),
         if with_jit { "jit" } else { "nojit" }
     )
+}
+
+/// `<a>=<b>,<a>=<b>,...`
+fn parse_pairs(s: &str) -> Vec<(u64, u64)> {
+    s.split(',').filter_map(|kv| kv.split_once('=')).filter_map(|(a, b)| Some((a.parse().ok()?, b.parse().ok()?))).collect()
 }
 
 fn parse_x(line: &str) -> Option<(ExecCase, bool)> {
@@ -86,6 +96,13 @@ fn parse_x(line: &str) -> Option<(ExecCase, bool)> {
     c.pkt_at_end = f[4] != "0" || c.pkt.len() % 8 == 0;
     c.mbuff_at_end = f[5] != "0";
     c.budget = f[6].parse().ok()?;
+    if let Some(spec) = f.get(11).and_then(|x| x.strip_prefix("c:")) {
+        let (d, t) = spec.split_once(':')?;
+        c.calc = Some((parse_pairs(t).into_iter().map(|(pc, s)| (pc as usize, s as u16)).collect(), d.parse().ok()?));
+    }
+    if let Some(spec) = f.get(12).and_then(|x| x.strip_prefix("h:")) {
+        c.helpers = parse_pairs(spec).into_iter().map(|(id, p)| (id as u32, p as u8)).collect();
+    }
     Some((c, f[10] == "jit"))
 }
 
@@ -246,6 +263,47 @@ fn run(ctx: &Ctx) {
         let mut case = sample(&dg, &mut tr);
         case.budget = 100_000;
         lines.push(x_line(&case, true));
+    }
+    // call graphs with a stack-usage calculator and helper calls inside functions (C07), and
+    // helper-call programs (C08), on each of the four VM kinds: every VM type hands its helpers,
+    // its calculator and its memory layout to the JIT in build-specific code
+    let vary_vm = |case: &mut ExecCase, i: u64| {
+        case.pkt = (0..16u8).collect();
+        case.mbuff = vec![0; 32];
+        case.vm = match i % 4 {
+            0 => VmKind::NoData,
+            1 => VmKind::Raw,
+            2 => VmKind::Mbuff { data_off: 8, end_off: 16 },
+            _ => VmKind::Fixed { data_off: 0x40, end_off: 0x50 },
+        };
+        if matches!(case.vm, VmKind::NoData) {
+            case.pkt.clear();
+        }
+    };
+    let cg = super::c07::cprog();
+    let hg = super::c08::hprog(4);
+    for i in 0..ctx.share(2_400 * scale) {
+        let mut case = if i % 3 == 2 { super::c08::lower(&sample(&hg, &mut tr)) } else { super::c07::lower(&sample(&cg, &mut tr)) };
+        if case.prog.len() > 8 * 3000 {
+            continue;
+        }
+        vary_vm(&mut case, i / 3);
+        let m = model_run(&case, 0x1000, Quirks::default(), 200_000);
+        if !matches!(m.out, MOut::Ret(_) | MOut::Err(_)) {
+            // e.g. frames made to overlap by the calculator: the result may depend on addresses,
+            // which differ between the two processes
+            *ctx.stats().discarded.entry("X-calls:model-undefined".into()).or_insert(0) += 1;
+            continue;
+        }
+        let with_jit = matches!(m.out, MOut::Ret(_));
+        case.budget = 100 * m.trace.steps.max(100) + 10_000;
+        let mut st = ctx.stats();
+        st.class(&format!("X-calls:{}:{}", vm_fields(case.vm).0, if with_jit { "jit" } else { "interpreter-only" }));
+        if case.calc.is_some() && m.trace.local_calls > 0 {
+            st.class(&format!("X-calls:{}:calculator+local-call", vm_fields(case.vm).0));
+        }
+        drop(st);
+        lines.push(x_line(&case, with_jit));
     }
     // evaluate in chunks so that a failure is reported early
     for chunk in lines.chunks(2000) {
